@@ -9,6 +9,8 @@
 (*   ExpectExact         EXPECT hides exactly the announced numbers, each announced-but-missing number is *)
 (*                       reported once at ENDEXPECT (counting definition vs. the list walk of asmerr.c)   *)
 (*   ExpectProtocol      nested EXPECT, ENDEXPECT without EXPECT, pass end inside EXPECT are errors       *)
+(*   ReaderCountsPhysical (family linelen) the line counter MacroProc works with is what ReadLnCont() of   *)
+(*                       spec/LineReader.tla returns for the job's line lengths / line ends / buffer state  *)
 (* With Dump in the configuration every job is printed with the messages the specification expects.      *)
 EXTENDS DiagPos, Json
 CONSTANTS Family, Tier
@@ -61,8 +63,33 @@ Programs ==
             pre \in {<<>>, <<"F1200">>}, A1 \in {<<1200>>, <<1200, 1110>>, <<1320>>, <<60>>}, O1 \in SeqsLE({"F1200", "F1110"}, 1),
             mid \in SeqsLE({"F1200", "F1110", "W60"}, 1) \cup {<<"F1200", "F1200">>} \cup (IF Q THEN {} ELSE {<<"F1320">>, <<"F1110", "F1200">>}),
             A2 \in {<<>>, <<1200>>, <<1110>>}, O2 \in {<<>>, <<"F1200">>}, post \in {<<>>, <<"F1200">>}}
+    [] Family = "linelen" ->    \* physical line lengths around the reader's buffer x line ends x file ends (spec/LineReader.tla)
+         LET G == LR!RealBuf.grow
+             roomy == LR!RealBuf.cap - LR!RealBuf.low            \* joined characters that leave exactly `low` bytes free
+             Ds == {-1, 0, 1, 2, G, G + 1, 3 * G + 7, 2 * LR!RealBuf.cap}
+             LShapes == {<<"alone", 0, d>> : d \in Ds} \cup {<<"first", 0, d>> : d \in Ds}
+                       \cup {<<"behind", t, d>> : t \in {roomy - 32, roomy, roomy + 1, LR!RealBuf.cap - 8}, d \in Ds \cup {5}}
+                       \cup {<<"short", 0, 0>>, <<"short", 2, 0>>}
+             Ctx == [where : {"main", "inc", "both"}, fault : {"F1200", "F1010"}, tailclean : BOOLEAN, twice : BOOLEAN,
+                     eol : {"lf", "crlf"}, last : {"nl", "nonl", "ctrlz", "zonline"}]
+             TCtx == {c \in Ctx : c.twice => c.where = "main"}        \* (the second copy in an include file adds nothing to "both")
+             \* quick tier: every kind of chunking (LF alone, CR | LF, text in the next chunk, many chunks, behind joined text
+             \* with and without growth, last line without line end) in a few contexts
+             QLShapes == {<<"alone", 0, 0>>, <<"alone", 0, 1>>, <<"alone", 0, 2>>, <<"alone", 0, 3 * G + 7>>, <<"first", 0, 1>>,
+                         <<"first", 0, 2>>, <<"behind", roomy - 32, 0>>, <<"behind", roomy - 32, 1>>, <<"behind", roomy - 32, 5>>,
+                         <<"behind", roomy - 32, 3 * G + 7>>, <<"behind", roomy + 1, 1>>, <<"short", 2, 0>>}
+             QCtx == {c \in Ctx : \/ c.where = "main" /\ c.tailclean /\ ~c.twice /\ c.last = "nl"
+                                  \/ c.where = "inc" /\ ~c.tailclean /\ ~c.twice /\ c.last = "nonl" /\ c.fault = "F1200"
+                                  \/ c.where = "both" /\ c.tailclean /\ ~c.twice /\ c.last = "ctrlz" /\ c.fault = "F1200" /\ c.eol = "lf"
+                                  \/ c.where = "main" /\ ~c.tailclean /\ c.twice = (c.last = "nonl") /\ c.last \in {"nonl", "zonline"} /\ c.fault = "F1200" /\ c.eol = "lf"}
+             All == {[tag |-> <<"linelen", sh, c.where, c.fault, c.tailclean, c.twice, c.eol, c.last>>,
+                      prog |-> LineLenProg(LineShape(sh[1], sh[2], sh[3], c.eol), c.where, c.fault, c.tailclean, c.twice, c.eol, c.last)] :
+                       sh \in (IF Q THEN QLShapes ELSE LShapes), c \in (IF Q THEN QCtx ELSE TCtx)}
+         IN {[tag |-> j.tag, files |-> j.prog.files, phys |-> j.prog.phys] :
+               j \in {x \in All : x.tag[4] = "F1010" => UnjudgedLines(x.prog.phys) = {}}}     \* (a broken statement stops after pass 1)
     [] OTHER -> {}
 Jobs == Programs
+HasPhys == "phys" \in DOMAIN job
 
 \* the two runs are made once per job (Init) and kept in r
 Compute(files) ==
@@ -100,6 +127,9 @@ ExpectExact ==
 \* the pending list is empty whenever no block is open (machine over the delivered statements, every pass made)
 PendingEmptyOutside ==
   r # <<>> => (PendingOnlyInsideBlock(M.delivered, 1) /\ PendingOnlyInsideBlock(D.raw, 1))
+\* family linelen: what the machine of MacroProc assumes about the line counter is what the reader of LineReader does with
+\* the lengths and line ends of the job, for every capacity the line buffer can have
+ReaderCountsPhysical == (r # <<>> /\ HasPhys) => ReaderAgrees(job.files, job.phys)
 ExpectProtocol ==
   (r # <<>> /\ Definite) =>
     LET out == M.mout1
@@ -125,7 +155,11 @@ OptSeq == LET S == OptsFor(Family \in {"expect", "expecthist"})
               RECURSIVE Enum(_)
               Enum(T) == IF T = {} THEN <<>> ELSE LET o == CHOOSE o \in T : TRUE IN <<o>> \o Enum(T \ {o})
           IN Enum(S)
+RECURSIVE EnumSet(_)
+EnumSet(T) == IF T = {} THEN <<>> ELSE LET o == CHOOSE o \in T : TRUE IN <<o>> \o EnumSet(T \ {o})
 Out == [tag |-> job.tag, p |-> job.files, indef |-> r.indef \/ r.errs # 0, devs |-> r.devs, pdevs |-> r.pdevs,
+        phys |-> IF HasPhys THEN job.phys ELSE <<>>,                       \* lengths and line ends for the renderer
+        skip |-> IF HasPhys THEN EnumSet(UnjudgedLines(job.phys)) ELSE <<>>, chunked |-> HasPhys /\ ChunkedIn(job.phys),
         runs |-> [i \in DOMAIN OptSeq |-> [opt |-> OptSeq[i], want |-> Expected(r.dout, OptSeq[i]), coded |-> Expected(r.mout, OptSeq[i])]]]
 
 \* the runs are made in the only step of a behaviour (so that all TLC workers share the jobs)
